@@ -1,6 +1,7 @@
 package props
 
 import (
+	"bufio"
 	"bytes"
 	"errors"
 	"fmt"
@@ -9,6 +10,7 @@ import (
 	"path/filepath"
 	"sort"
 	"strings"
+	"syscall"
 	"testing/iotest"
 
 	"github.com/ipfs/go-cid"
@@ -25,12 +27,13 @@ import (
 
 type C03Case struct {
 	Seq     []string `json:"seq"`
-	Cont    string   `json:"cont"` // v1, v1null, v2, v2pad, v2idx, v2null
-	Kind    string   `json:"kind"` // sorted, mh, insertion
-	API     string   `json:"api"`  // gen-bytes gen-file gen-stream rog-bytes rog-file rog-rs ro-at ro-bytes st-at st-bytes
+	Cont    string   `json:"cont"` // v1, v1null, v2, v2pad, v2bigpad, v2idx, v2null, v2idxnull
+	Kind    string   `json:"kind"` // sorted, mh (default codec), mhx (UseIndexCodec(mh) given explicitly), insertion
+	API     string   `json:"api"`  // gen-<src> genfile-path rog-<src> ro-<src> st-<src>
 	StoreID bool     `json:"storeid,omitempty"`
 	ZeroEOF bool     `json:"zeroeof,omitempty"`
 	MaxCid  uint64   `json:"maxcid,omitempty"`
+	Roots   string   `json:"roots,omitempty"` // "" = one root (a); empty, ab, r4
 }
 
 type rsOnly struct{ rs io.ReadSeeker }
@@ -38,9 +41,95 @@ type rsOnly struct{ rs io.ReadSeeker }
 func (r rsOnly) Read(p []byte) (int, error)         { return r.rs.Read(p) }
 func (r rsOnly) Seek(o int64, w int) (int64, error) { return r.rs.Seek(o, w) }
 
+// halfRS is a seekable source whose Read returns short reads (half of the buffer).
+type halfRS struct {
+	r io.Reader // iotest.HalfReader over s (stateless: it only shortens the buffer)
+	s io.Seeker
+}
+
+func (h halfRS) Read(p []byte) (int, error)         { return h.r.Read(p) }
+func (h halfRS) Seek(o int64, w int) (int64, error) { return h.s.Seek(o, w) }
+
+// c03Extra are blocks used by this check only (not part of the shared alphabet).
+var c03Extra = map[string]kit.Blk{}
+var c03ExtraOrder []string
+
+func c03Add(name string, raw, data []byte) {
+	c, err := cid.Cast(raw)
+	if err != nil {
+		panic(fmt.Sprintf("c03 block %s: %v", name, err))
+	}
+	if !bytes.Equal(c.Bytes(), raw) {
+		panic("c03 block " + name + ": go-cid re-encodes differently")
+	}
+	c03Extra[name] = kit.Blk{Name: name, Raw: raw, Cid: c, Data: data}
+	c03ExtraOrder = append(c03ExtraOrder, name)
+}
+
+func init() {
+	aData := []byte("aaa")
+	da, _ := refcar.Digest(refcar.MhSha256, aData)
+	// sha2-256("aaa") truncated to 20 bytes: a strict prefix of a's digest under the same code
+	c03Add("ta", refcar.CIDv1(refcar.CodecRaw, refcar.MhSha256, da[:20]), aData)
+	// identity digest that is a strict prefix of ip1's and ip2's digests
+	c03Add("ip0", refcar.CIDv1(refcar.CodecRaw, refcar.MhIdentity, []byte("prefix--prefix--")), []byte("prefix--prefix--"))
+	// a's digest under another non-identity 32-byte code. A real collision cannot be constructed, so the
+	// data does not hash to the CID; index generation never hashes data (see Assumptions).
+	c03Add("ka", refcar.CIDv1(refcar.CodecRaw, refcar.MhBlake2b256, da), aData)
+	// identity CIDs whose encoded length is exactly DefaultMaxIndexCidSize (2048) and one more
+	for _, n := range []int{2048, 2049} {
+		d := make([]byte, n-5) // 01 55 00 <2-byte varint> digest
+		for i := range d {
+			d[i] = byte(n) + byte(i*11)
+		}
+		raw := refcar.CIDv1(refcar.CodecRaw, refcar.MhIdentity, d)
+		if len(raw) != n {
+			panic("c03: X block length")
+		}
+		c03Add(fmt.Sprintf("X%d", n), raw, d)
+	}
+}
+
+func c03Blk(name string) kit.Blk {
+	if b, ok := c03Extra[name]; ok {
+		return b
+	}
+	return kit.B(name)
+}
+
+// c03Roots resolves the root shape of the header. r4 makes the header longer than 127 bytes
+// (2-byte length varint) and mixes CID lengths.
+func c03Roots(name string) [][]byte {
+	var names []string
+	switch name {
+	case "", "a":
+		names = []string{"a"}
+	case "empty":
+		names = []string{}
+	case "ab":
+		names = []string{"a", "b"}
+	case "r4":
+		names = []string{"a", "s", "a0", "b"}
+	default:
+		panic("unknown root shape " + name)
+	}
+	out := [][]byte{}
+	for _, n := range names {
+		out = append(out, kit.B(n).Raw)
+	}
+	return out
+}
+
 // buildContainer lays the blocks out with refcar. embedded = records written as the embedded index.
 func buildContainer(cont string, rootRaws [][]byte, blks []refcar.Block, storeID bool, codec uint64) (file []byte, payload []byte) {
 	payload = refcar.EncodeV1(rootRaws, false, blks)
+	embeddedIndex := func() []byte {
+		p, err := refcar.DecodePayload(payload, false, false)
+		if err != nil {
+			panic(err)
+		}
+		return refcar.EncodeIndex(codec, refcar.RecordsOf(p, storeID))
+	}
 	switch cont {
 	case "v1":
 		return payload, payload
@@ -50,41 +139,66 @@ func buildContainer(cont string, rootRaws [][]byte, blks []refcar.Block, storeID
 		return refcar.EncodeV2(payload, 0, 0, nil, false), payload
 	case "v2pad":
 		return refcar.EncodeV2(payload, 5, 0, nil, false), payload
+	case "v2bigpad":
+		// larger than any copy buffer used to skip the padding on a stream (several chunks)
+		return refcar.EncodeV2(payload, 40001, 0, nil, false), payload
 	case "v2null":
 		padded := append(append([]byte{}, payload...), make([]byte, 4)...)
 		return refcar.EncodeV2(padded, 3, 0, nil, false), payload
 	case "v2idx":
-		p, err := refcar.DecodePayload(payload, false, false)
-		if err != nil {
-			panic(err)
-		}
-		idx := refcar.EncodeIndex(codec, refcar.RecordsOf(p, storeID))
-		return refcar.EncodeV2(payload, 5, 3, idx, storeID), payload
+		return refcar.EncodeV2(payload, 5, 3, embeddedIndex(), storeID), payload
+	case "v2idxnull":
+		// null padding inside the data window, followed by index padding and an index
+		padded := append(append([]byte{}, payload...), make([]byte, 4)...)
+		return refcar.EncodeV2(padded, 5, 3, embeddedIndex(), storeID), payload
 	}
 	panic("unknown container " + cont)
 }
 
 func offsetsStr(l []uint64) string {
+	l = append([]uint64{}, l...)
 	sort.Slice(l, func(i, j int) bool { return l[i] < l[j] })
 	return fmt.Sprint(l)
 }
 
+var errC03Abort = errors.New("c03: abort iteration")
+
+// ioLike tells whether err is an I/O failure rather than a refusal of the archive's content.
+func ioLike(err error) bool {
+	return errors.Is(err, io.EOF) || errors.Is(err, io.ErrUnexpectedEOF) || errors.Is(err, syscall.ESPIPE) ||
+		errors.Is(err, io.ErrShortBuffer) || errors.Is(err, io.ErrNoProgress) || errors.Is(err, os.ErrClosed) ||
+		strings.Contains(err.Error(), "seek") || strings.Contains(err.Error(), "rewind")
+}
+
 func runC03(c any, x *kit.Ctx) {
 	cs := c.(C03Case)
-	_, rootRaws, _ := kit.Roots("a")
-	blks := kit.Bs(cs.Seq)
+	rootRaws := c03Roots(cs.Roots)
+	blks := make([]kit.Blk, len(cs.Seq))
+	for i, n := range cs.Seq {
+		blks[i] = c03Blk(n)
+	}
 	var rb []refcar.Block
 	for _, b := range blks {
 		rb = append(rb, b.Ref())
 	}
 	o := drv.Opts{StoreID: cs.StoreID, ZeroEOF: cs.ZeroEOF, MaxCid: cs.MaxCid}
-	if cs.Kind == "sorted" {
+	switch cs.Kind {
+	case "sorted":
 		o.Codec = "sorted"
+	case "mhx":
+		o.Codec = "mh"
 	}
 	codecNumber := codecNum(o)
 	file, payload := buildContainer(cs.Cont, rootRaws, rb, cs.StoreID, codecNumber)
 	opts := o.List()
-	pl, err := refcar.DecodePayload(payload, false, true)
+	// hashes are verified except for the one block that stands for a cross-function collision
+	verify := true
+	for _, n := range cs.Seq {
+		if n == "ka" {
+			verify = false
+		}
+	}
+	pl, err := refcar.DecodePayload(payload, false, verify)
 	if err != nil {
 		panic(err)
 	}
@@ -94,21 +208,44 @@ func runC03(c any, x *kit.Ctx) {
 		maxCid = 2048
 	}
 	wantTooLarge := false
+	overLens := map[uint64]bool{}
 	for _, s := range pl.Sections {
 		if s.Info.MhCode == refcar.MhIdentity && !cs.StoreID {
 			continue
 		}
 		if uint64(len(s.Cid)) > maxCid {
 			wantTooLarge = true
+			overLens[uint64(len(s.Cid))] = true
 		}
 	}
-	nullPadded := cs.Cont == "v1null" || cs.Cont == "v2null"
+	nullPadded := cs.Cont == "v1null" || cs.Cont == "v2null" || cs.Cont == "v2idxnull"
 	wantNullErr := nullPadded && !cs.ZeroEOF
 
 	// build the index through the chosen API
 	var idx index.Index
 	var src io.Reader
-	var cleanup func()
+	var cleanups []func()
+	defer func() {
+		for i := len(cleanups) - 1; i >= 0; i-- {
+			cleanups[i]()
+		}
+	}()
+	writeFile := func(name string) string {
+		p := filepath.Join(x.Dir, name)
+		if err := os.WriteFile(p, file, 0o644); err != nil {
+			panic(err)
+		}
+		cleanups = append(cleanups, func() { os.Remove(p) })
+		return p
+	}
+	openFile := func(name string) *os.File {
+		f, err := os.Open(writeFile(name))
+		if err != nil {
+			panic(err)
+		}
+		cleanups = append(cleanups, func() { f.Close() })
+		return f
+	}
 	mkSrc := func(kind string) {
 		switch kind {
 		case "bytes":
@@ -121,29 +258,49 @@ func runC03(c any, x *kit.Ctx) {
 			if err != nil {
 				panic(err)
 			}
+			// the writer blocks once the pipe is full and is released by pr.Close() when the scan stops early
 			go func() { pw.Write(file); pw.Close() }()
 			src = pr
-			cleanup = func() { pr.Close() }
+			cleanups = append(cleanups, func() { pr.Close() })
 		case "onebyte":
 			src = iotest.OneByteReader(bytes.NewReader(file)) // short reads: an environment deviation
 		case "half":
 			src = iotest.HalfReader(bytes.NewReader(file))
+		case "bufio":
+			// Read + ReadByte (io.ByteReader) without Seek
+			src = bufio.NewReader(drv.PlainReader{R: bytes.NewReader(file)})
+		case "bufio16":
+			src = bufio.NewReaderSize(drv.PlainReader{R: bytes.NewReader(file)}, 16)
+		case "buffer":
+			src = bytes.NewBuffer(append([]byte{}, file...))
+		case "dataerr":
+			// the last Read returns n>0 together with io.EOF
+			src = iotest.DataErrReader(drv.PlainReader{R: bytes.NewReader(file)})
 		case "rs":
 			src = rsOnly{bytes.NewReader(file)}
+		case "rshalf":
+			// seekable, short reads
+			br := bytes.NewReader(file)
+			src = halfRS{r: iotest.HalfReader(br), s: br}
 		case "file":
-			p := filepath.Join(x.Dir, "c03.car")
-			if err := os.WriteFile(p, file, 0o644); err != nil {
-				panic(err)
-			}
-			f, err := os.Open(p)
-			if err != nil {
-				panic(err)
-			}
-			src = f
-			cleanup = func() { f.Close(); os.Remove(p) }
+			src = openFile("c03.car")
+		default:
+			panic("unknown source kind " + kind)
 		}
 	}
+	mkAt := func(kind string) io.ReaderAt {
+		switch kind {
+		case "at":
+			return drv.OnlyReaderAt{R: bytes.NewReader(file)}
+		case "bytes":
+			return bytes.NewReader(file)
+		case "file":
+			return openFile("c03-at.car")
+		}
+		panic("unknown ReaderAt kind " + kind)
+	}
 	embedded := false // index came from the file rather than from a scan
+	hasEmbedded := cs.Cont == "v2idx" || cs.Cont == "v2idxnull"
 	api, srcKind, _ := strings.Cut(cs.API, "-")
 	x.Eval(1)
 	x.Transition(len(blks) + 1)
@@ -159,11 +316,7 @@ func runC03(c any, x *kit.Ctx) {
 		}
 	case "genfile":
 		// GenerateIndexFromFile(path)
-		pth := filepath.Join(x.Dir, "c03-gf.car")
-		if werr := os.WriteFile(pth, file, 0o644); werr != nil {
-			panic(werr)
-		}
-		cleanup = func() { os.Remove(pth) }
+		pth := writeFile("c03-gf.car")
 		if cs.Kind == "insertion" {
 			err = errors.New("n/a")
 		} else {
@@ -172,40 +325,34 @@ func runC03(c any, x *kit.Ctx) {
 	case "rog":
 		mkSrc(srcKind)
 		idx, err = carv2.ReadOrGenerateIndex(src.(io.ReadSeeker), opts...)
-		embedded = cs.Cont == "v2idx"
+		embedded = hasEmbedded
 	case "ro":
-		var ra io.ReaderAt = bytes.NewReader(file)
-		if srcKind == "at" {
-			ra = drv.OnlyReaderAt{R: bytes.NewReader(file)}
-		}
 		var bs *blockstore.ReadOnly
-		bs, err = blockstore.NewReadOnly(ra, nil, opts...)
+		if srcKind == "mmap" {
+			bs, err = blockstore.OpenReadOnly(writeFile("c03-mm.car"), opts...)
+		} else {
+			bs, err = blockstore.NewReadOnly(mkAt(srcKind), nil, opts...)
+		}
 		if err == nil {
 			idx = bs.Index()
+			cleanups = append(cleanups, func() { bs.Close() })
 		}
-		embedded = cs.Cont == "v2idx"
+		embedded = hasEmbedded
 	case "st":
-		var ra io.ReaderAt = bytes.NewReader(file)
-		if srcKind == "at" {
-			ra = drv.OnlyReaderAt{R: bytes.NewReader(file)}
-		}
 		var st storage.ReadableCar
-		st, err = storage.OpenReadable(ra, opts...)
+		st, err = storage.OpenReadable(mkAt(srcKind), opts...)
 		if err == nil {
 			idx = st.Index()
 		}
-		embedded = cs.Cont == "v2idx"
-	}
-	if cleanup != nil {
-		defer cleanup()
+		embedded = hasEmbedded
+	default:
+		panic("unknown api " + cs.API)
 	}
 	tag := cs.API + ":" + cs.Cont
 	if embedded {
 		// the embedded index is taken as is: no size limit, no null-padding scan
 		wantTooLarge = false
-		if api != "ro" && api != "st" {
-			wantNullErr = false
-		}
+		wantNullErr = false
 	}
 	if wantTooLarge || wantNullErr {
 		x.Outcome("refused")
@@ -214,8 +361,19 @@ func runC03(c any, x *kit.Ctx) {
 			return
 		}
 		var tl *carv2.ErrCidTooLarge
-		if wantTooLarge && !wantNullErr && !errors.As(err, &tl) {
+		isTL := errors.As(err, &tl)
+		if wantTooLarge && !wantNullErr && !isTL {
 			x.Fail("c03:wrong-error:"+tag, "expected ErrCidTooLarge, got %v", err)
+		}
+		if isTL {
+			if !wantTooLarge {
+				x.Fail("c03:wrong-error:"+tag, "ErrCidTooLarge (%v) although no indexed CID exceeds %d bytes", err, maxCid)
+			} else if tl.MaxSize != maxCid || !overLens[tl.CurrentSize] {
+				x.Fail("c03:toolarge-fields:"+tag, "ErrCidTooLarge{MaxSize:%d CurrentSize:%d}; the limit is %d and the over-long indexed CIDs have lengths %v", tl.MaxSize, tl.CurrentSize, maxCid, overLens)
+			}
+		} else if ioLike(err) {
+			// the refusal has to be about the archive's content (null padding / CID size), not an I/O failure
+			x.Fail("c03:refusal-is-io-error:"+tag, "expected a refusal (tooLarge=%v nullPadding=%v), got an I/O error: %v", wantTooLarge, wantNullErr, err)
 		}
 		return
 	}
@@ -223,17 +381,48 @@ func runC03(c any, x *kit.Ctx) {
 		x.Fail("c03:build-error:"+tag, "index generation fails on a valid archive: %v", err)
 		return
 	}
-	// which matching rule does this index implement?
-	digestOnly := true
-	if _, ok := idx.(*index.MultihashIndexSorted); ok {
-		digestOnly = false
+	// which index was asked for, and which matching rule goes with it?
+	var wantCodec uint64
+	wantInsertion := false
+	switch {
+	case embedded:
+		wantCodec = codecNumber
+	case cs.Kind == "insertion":
+		wantInsertion = true
+	case cs.Kind == "sorted":
+		wantCodec = refcar.CodecIndexSorted
+	default:
+		wantCodec = refcar.CodecMhIndexSorted
 	}
-	// queries: every alphabet CID and an absent one
+	ii, isInsertion := idx.(*index.InsertionIndex)
+	if wantInsertion {
+		if !isInsertion {
+			x.Fail("c03:codec:"+tag, "index is a %T (codec 0x%x); an insertion index was asked for", idx, uint64(idx.Codec()))
+		}
+	} else if uint64(idx.Codec()) != wantCodec || isInsertion {
+		x.Fail("c03:codec:"+tag, "index is a %T with codec 0x%x; want codec 0x%x (embedded=%v)", idx, uint64(idx.Codec()), wantCodec, embedded)
+	}
+	digestOnly := wantInsertion || wantCodec == refcar.CodecIndexSorted
+
+	// queries: every alphabet CID, this check's extra CIDs, every block of the archive and an absent one
 	var queries []kit.Blk
-	for _, n := range kit.AlphaOrder {
-		queries = append(queries, kit.B(n))
+	seenQ := map[string]bool{}
+	addQ := func(b kit.Blk) {
+		if !seenQ[string(b.Raw)] {
+			seenQ[string(b.Raw)] = true
+			queries = append(queries, b)
+		}
 	}
-	queries = append(queries, kit.Absent)
+	for _, n := range kit.AlphaOrder {
+		addQ(kit.B(n))
+	}
+	for _, n := range c03ExtraOrder {
+		addQ(c03Extra[n])
+	}
+	for _, b := range blks {
+		addQ(b)
+	}
+	addQ(kit.Absent)
 	for _, q := range queries {
 		qi, _ := refcar.ParseCID(q.Raw)
 		var exp []uint64
@@ -249,9 +438,31 @@ func runC03(c any, x *kit.Ctx) {
 		var got []uint64
 		err := idx.GetAll(q.Cid, func(o uint64) bool { got = append(got, o); return true })
 		x.Transition(1)
+		// the section at each reported offset decodes to a CID with that key (checked on what
+		// go-car reported, before and independently of the comparison with the reference scan)
+		for _, off := range got {
+			if off >= uint64(len(payload)) {
+				x.Fail("c03:offset-not-section:"+tag, "offset %d for %s is outside the %d-byte payload", off, q.Name, len(payload))
+				continue
+			}
+			sl, sn, err := refcar.Uvarint(payload[off:])
+			if err != nil || sl == 0 || sl > uint64(len(payload))-off-uint64(sn) {
+				x.Fail("c03:offset-not-section:"+tag, "offset %d for %s is not a section start", off, q.Name)
+				continue
+			}
+			ci, err := refcar.ParseCID(payload[off+uint64(sn) : off+uint64(sn)+sl])
+			if err != nil || !bytes.Equal(ci.Digest, qi.Digest) || (!digestOnly && ci.MhCode != qi.MhCode) {
+				x.Fail("c03:offset-wrong-key:"+tag, "section at offset %d does not carry the key of %s", off, q.Name)
+			}
+		}
 		if len(exp) == 0 {
-			if err != index.ErrNotFound || len(got) != 0 {
+			if !errors.Is(err, index.ErrNotFound) || len(got) != 0 {
 				x.Fail("c03:absent-not-notfound:"+tag, "GetAll(%s) for a key with no section: offsets %v err %v; want ErrNotFound", q.Name, got, err)
+			}
+			if isInsertion {
+				if off, err := ii.Get(q.Cid); !errors.Is(err, index.ErrNotFound) {
+					x.Fail("c03:insertion-get:"+tag, "InsertionIndex.Get(%s) for a key with no section: %d, %v; want ErrNotFound", q.Name, off, err)
+				}
 			}
 			continue
 		}
@@ -267,16 +478,25 @@ func runC03(c any, x *kit.Ctx) {
 		if err != nil || !containsU(exp, first) {
 			x.Fail("c03:getfirst:"+tag, "GetFirst(%s)=%d,%v want one of %v", q.Name, first, err, exp)
 		}
-		// the section at each reported offset decodes to a CID with that key
-		for _, off := range got {
-			sl, sn, err := refcar.Uvarint(payload[off:])
-			if err != nil || off+uint64(sn)+sl > uint64(len(payload)) {
-				x.Fail("c03:offset-not-section:"+tag, "offset %d for %s is not a section start", off, q.Name)
-				continue
+		// GetAll stops when the callback returns false: after the 1st, 2nd, ... match
+		for stopAt := 1; stopAt <= len(exp) && stopAt <= 3; stopAt++ {
+			var part []uint64
+			err := idx.GetAll(q.Cid, func(o uint64) bool { part = append(part, o); return len(part) < stopAt })
+			x.Transition(1)
+			ok := err == nil && len(part) == stopAt
+			for i, o := range part {
+				// the order of matches is index-specific but deterministic: a prefix of the full answer
+				if i >= len(got) || got[i] != o {
+					ok = false
+				}
 			}
-			ci, err := refcar.ParseCID(payload[off+uint64(sn):])
-			if err != nil || !bytes.Equal(ci.Digest, qi.Digest) || (!digestOnly && ci.MhCode != qi.MhCode) {
-				x.Fail("c03:offset-wrong-key:"+tag, "section at offset %d does not carry the key of %s", off, q.Name)
+			if !ok {
+				x.Fail("c03:getall-stop:"+tag, "GetAll(%s) with a callback returning false at match %d: callbacks %v err %v; want the first %d of %v and no error", q.Name, stopAt, part, err, stopAt, got)
+			}
+		}
+		if isInsertion {
+			if off, err := ii.Get(q.Cid); err != nil || !containsU(exp, off) {
+				x.Fail("c03:insertion-get:"+tag, "InsertionIndex.Get(%s)=%d,%v want one of %v", q.Name, off, err, exp)
 			}
 		}
 	}
@@ -291,14 +511,57 @@ func runC03(c any, x *kit.Ctx) {
 			mh := append(refcar.PutUvarint(r.MhCode), refcar.PutUvarint(uint64(len(r.Digest)))...)
 			exp = append(exp, fmt.Sprintf("%x@%d", append(mh, r.Digest...), r.Offset))
 		}
+		inOrder := append([]string{}, got...)
 		sort.Strings(got)
 		sort.Strings(exp)
 		if err != nil || strings.Join(got, ",") != strings.Join(exp, ",") {
 			x.Fail("c03:foreach:"+tag, "ForEach yields {%s} err %v; want {%s}", strings.Join(got, ","), err, strings.Join(exp, ","))
 		}
+		// a callback error aborts the iteration and is returned
+		for stopAt := 1; stopAt <= len(want) && stopAt <= 2; stopAt++ {
+			var part []string
+			err := it.ForEach(func(mh multihash.Multihash, off uint64) error {
+				part = append(part, fmt.Sprintf("%x@%d", []byte(mh), off))
+				if len(part) >= stopAt {
+					return errC03Abort
+				}
+				return nil
+			})
+			ok := errors.Is(err, errC03Abort) && len(part) == stopAt
+			for i, e := range part {
+				// "the order of calls is deterministic"
+				if i >= len(inOrder) || inOrder[i] != e {
+					ok = false
+				}
+			}
+			if !ok {
+				x.Fail("c03:foreach-abort:"+tag, "ForEach with a callback failing at call %d: calls %v err %v; want the first %d of %v and the callback's error", stopAt, part, err, stopAt, inOrder)
+			}
+		}
+	}
+	if isInsertion {
+		// the insertion index keeps whole CIDs
+		var got, exp []string
+		err := ii.ForEachCid(func(c cid.Cid, off uint64) error {
+			got = append(got, fmt.Sprintf("%x@%d", c.Bytes(), off))
+			return nil
+		})
+		for _, s := range pl.Sections {
+			if s.Info.MhCode == refcar.MhIdentity && !cs.StoreID {
+				continue
+			}
+			exp = append(exp, fmt.Sprintf("%x@%d", s.Cid, s.Offset))
+		}
+		sort.Strings(got)
+		sort.Strings(exp)
+		if err != nil || strings.Join(got, ",") != strings.Join(exp, ",") {
+			x.Fail("c03:foreachcid:"+tag, "ForEachCid yields {%s} err %v; want {%s}", strings.Join(got, ","), err, strings.Join(exp, ","))
+		}
 	}
 	x.State(fmt.Sprintf("%x|%v|%v", file, cs.Kind, cs.StoreID))
 	x.Outcome(fmt.Sprintf("records=%d", len(want)))
+	x.Count("api:"+api+"-"+srcKind, 1)
+	x.Count("cont:"+cs.Cont, 1)
 	dup := map[string]bool{}
 	for _, r := range want {
 		k := fmt.Sprintf("%x", r.Digest)
@@ -310,7 +573,6 @@ func runC03(c any, x *kit.Ctx) {
 	if len(want) >= 2 {
 		x.Nontrivial(fmt.Sprintf("%+v", cs))
 	}
-	_ = cid.Undef
 }
 
 func containsU(l []uint64, v uint64) bool {
@@ -322,40 +584,296 @@ func containsU(l []uint64, v uint64) bool {
 	return false
 }
 
+// ---------------------------------------------------------------- enumeration
+
+var (
+	c03GenCore  = []string{"gen-bytes", "gen-file", "gen-stream", "gen-onebyte", "gen-half", "gen-pipe"}
+	c03GenExtra = []string{"gen-bufio", "gen-bufio16", "gen-buffer", "gen-dataerr", "gen-rs", "gen-rshalf"}
+	// codec-carrying entry points (not for kind=insertion)
+	c03CodecCore  = []string{"genfile-path", "rog-bytes", "rog-file", "rog-rs", "ro-at", "ro-bytes"}
+	c03CodecExtra = []string{"rog-rshalf", "ro-file", "ro-mmap"}
+	// insertion-index entry points besides LoadIndex
+	c03InsCore  = []string{"st-at", "st-bytes"}
+	c03InsExtra = []string{"st-file"}
+)
+
+// c03APIs lists the entry points for an index kind: the original set, the added set or both.
+func c03APIs(kind string, core, extra bool) []string {
+	var out []string
+	if core {
+		out = append(out, c03GenCore...)
+	}
+	if extra {
+		out = append(out, c03GenExtra...)
+	}
+	if kind != "insertion" {
+		if core {
+			out = append(out, c03CodecCore...)
+		}
+		if extra {
+			out = append(out, c03CodecExtra...)
+		}
+	} else {
+		if core {
+			out = append(out, c03InsCore...)
+		}
+		if extra {
+			out = append(out, c03InsExtra...)
+		}
+	}
+	return out
+}
+
+var (
+	c03ContsCore = []string{"v1", "v2", "v2pad", "v2idx", "v1null", "v2null"}
+	c03KindsCore = []string{"mh", "sorted", "insertion"}
+	c03KindsAll  = []string{"mh", "sorted", "insertion", "mhx"}
+	c03Bools     = []bool{false, true}
+)
+
+// c03ManySeq is a 41-section archive of distinct 32-byte digests (one bucket, well above the
+// insertion-sort threshold of sort.Sort) with one element repeated in the middle.
+func c03ManySeq() []string {
+	many := kit.ManyNames(40)
+	out := append([]string{}, many[:20]...)
+	out = append(out, many[7])
+	return append(out, many[20:]...)
+}
+
 func genC03(tier string, emit func(any)) {
+	thorough := tier == "thorough"
+	nullCont := func(cont string) bool { return cont == "v1null" || cont == "v2null" || cont == "v2idxnull" }
+	// v2idxnull is only meaningful for the re-generating entry points (an embedded index is taken as is)
+	apiOK := func(cont, api string) bool {
+		return cont != "v2idxnull" || strings.HasPrefix(api, "gen")
+	}
+
+	// ---- M0: the original matrix (kept as it was: sequences x containers x kinds x original entry points
+	// x StoreIdentityCIDs x ZeroLengthSectionAsEOF (where it matters) x MaxIndexCidSize {default,40})
 	names := []string{"a", "b", "a'", "a0", "ia", "i", "s", "t"}
 	maxLen := 2
-	if tier == "thorough" {
+	if thorough {
 		names = append(names, "k", "i0", "e", "X", "ip1", "ip2")
 		maxLen = 3
 	}
 	var seqs [][]string
 	kit.Seqs(names, maxLen, func(s []string) { seqs = append(seqs, s) })
-	seqs = append(seqs, []string{"a", "a", "a"}, []string{"a", "ia", "a'"}, []string{"X", "a"}, []string{"L128", "a", "L16384", "a"}, []string{"ip1", "ip2"}, []string{"ip1", "a", "ip2"})
-	conts := []string{"v1", "v2", "v2pad", "v2idx", "v1null", "v2null"}
+	special := [][]string{{"a", "a", "a"}, {"a", "ia", "a'"}, {"X", "a"}, {"L128", "a", "L16384", "a"}, {"ip1", "ip2"}, {"ip1", "a", "ip2"}}
+	seqs = append(seqs, special...)
 	for _, sq := range seqs {
-		for _, cont := range conts {
-			for _, kind := range []string{"mh", "sorted", "insertion"} {
-				apis := []string{"gen-bytes", "gen-file", "gen-stream", "gen-onebyte", "gen-half", "gen-pipe"}
-				if kind != "insertion" {
-					apis = append(apis, "genfile-path", "rog-bytes", "rog-file", "rog-rs", "ro-at", "ro-bytes")
-				} else {
-					apis = append(apis, "st-at", "st-bytes")
-				}
-				for _, api := range apis {
-					for _, sid := range []bool{false, true} {
-						for _, z := range []bool{false, true} {
+		for _, cont := range c03ContsCore {
+			for _, kind := range c03KindsCore {
+				for _, api := range c03APIs(kind, true, false) {
+					for _, sid := range c03Bools {
+						for _, z := range c03Bools {
 							if z && !(cont == "v1null" || cont == "v2null" || cont == "v1") {
 								continue
 							}
 							for _, mc := range []uint64{0, 40} {
-								if mc == 40 && tier != "thorough" && len(sq) > 1 && cont != "v1" {
+								if mc == 40 && !thorough && len(sq) > 1 && cont != "v1" {
 									continue
 								}
 								emit(C03Case{Seq: sq, Cont: cont, Kind: kind, API: api, StoreID: sid, ZeroEOF: z, MaxCid: mc})
 							}
 						}
 					}
+				}
+			}
+		}
+	}
+
+	// ---- M1: ZeroLengthSectionAsEOF=true on the containers M0 leaves out (the option must not change
+	// anything for an archive without null padding)
+	for _, sq := range seqs {
+		if len(sq) > 2 {
+			continue
+		}
+		for _, cont := range []string{"v2", "v2pad", "v2idx"} {
+			for _, kind := range c03KindsCore {
+				for _, api := range c03APIs(kind, true, false) {
+					for _, sid := range c03Bools {
+						emit(C03Case{Seq: sq, Cont: cont, Kind: kind, API: api, StoreID: sid, ZeroEOF: true})
+					}
+				}
+			}
+		}
+	}
+
+	// ---- M2: the added entry points / source kinds, the explicit UseIndexCodec(mh) and the added
+	// containers (v2bigpad, v2idxnull).
+	// sequences: all up to length 2 over the M0 alphabet + the prefix/collision blocks; in the thorough
+	// tier also length 3 over M0's alphabet with a reduced option matrix (see below).
+	names2 := append(append([]string{}, names...), "ta", "ip0", "ka")
+	len2 := 1
+	if thorough {
+		len2 = 2
+	}
+	var seqs2 [][]string
+	kit.Seqs(names2, len2, func(s []string) { seqs2 = append(seqs2, s) })
+	if !thorough {
+		// quick: pairs over the blocks that interact (same digest, prefix digests, other code)
+		kit.Seqs([]string{"a", "ta", "ka", "ia", "ip0", "ip1"}, 2, func(s []string) {
+			if len(s) == 2 {
+				seqs2 = append(seqs2, s)
+			}
+		})
+	}
+	seqs2 = append(seqs2, special...)
+	contsAll := []string{"v1", "v2", "v2pad", "v2idx", "v1null", "v2null", "v2bigpad", "v2idxnull"}
+	for _, sq := range seqs2 {
+		for _, cont := range contsAll {
+			newCont := cont == "v2bigpad" || cont == "v2idxnull"
+			for _, kind := range c03KindsAll {
+				// what M0/M1 already ran is not repeated: the original entry points are only crossed
+				// with what is new here (a new block, a new container, the explicit codec)
+				newSeq := false
+				for _, n := range sq {
+					if n == "ta" || n == "ip0" || n == "ka" {
+						newSeq = true
+					}
+				}
+				core := newSeq || newCont || kind == "mhx"
+				k := kind
+				for _, api := range c03APIs(k, core, true) {
+					if !apiOK(cont, api) {
+						continue
+					}
+					for _, sid := range c03Bools {
+						for _, z := range c03Bools {
+							if z && !thorough && !(nullCont(cont) || cont == "v1") {
+								continue
+							}
+							for _, mc := range []uint64{0, 40} {
+								if mc == 40 && !thorough && len(sq) > 1 && cont != "v1" {
+									continue
+								}
+								emit(C03Case{Seq: sq, Cont: cont, Kind: kind, API: api, StoreID: sid, ZeroEOF: z, MaxCid: mc})
+							}
+						}
+					}
+				}
+			}
+		}
+	}
+	// triples over the blocks with equal / prefix-related digests (same code, other code, identity)
+	var seqs3 [][]string
+	trip := []string{"a", "ta", "ka", "ia"}
+	if thorough {
+		trip = []string{"a", "ta", "ka", "ia", "ip0", "ip1", "ip2"}
+	}
+	kit.Seqs(trip, 3, func(s []string) {
+		if len(s) == 3 {
+			seqs3 = append(seqs3, s)
+		}
+	})
+	for _, sq := range seqs3 {
+		for _, cont := range []string{"v1", "v2pad", "v2idx"} {
+			for _, kind := range c03KindsCore {
+				for _, api := range c03APIs(kind, true, thorough) {
+					for _, sid := range c03Bools {
+						emit(C03Case{Seq: sq, Cont: cont, Kind: kind, API: api, StoreID: sid})
+					}
+				}
+			}
+		}
+	}
+	if thorough {
+		// length-3 sequences of M0 through the added entry points: default limits, no ZeroEOF
+		for _, sq := range seqs {
+			if len(sq) != 3 {
+				continue
+			}
+			for _, cont := range []string{"v1", "v2pad", "v2idx", "v2null"} {
+				for _, kind := range c03KindsCore {
+					for _, api := range c03APIs(kind, false, true) {
+						for _, sid := range c03Bools {
+							emit(C03Case{Seq: sq, Cont: cont, Kind: kind, API: api, StoreID: sid, ZeroEOF: nullCont(cont)})
+						}
+					}
+				}
+			}
+		}
+	}
+
+	// ---- M3: header shapes (no root, two roots, four roots = header longer than 127 bytes)
+	var seqsR [][]string
+	lenR := 1
+	if thorough {
+		lenR = 2
+	}
+	kit.Seqs([]string{"a", "a0", "ia", "i", "s", "t"}, lenR, func(s []string) { seqsR = append(seqsR, s) })
+	seqsR = append(seqsR, []string{"a", "b"}, []string{"a", "ia", "a'"}, []string{"L128", "a", "L16384", "a"})
+	for _, roots := range []string{"empty", "ab", "r4"} {
+		for _, sq := range seqsR {
+			for _, cont := range contsAll {
+				for _, kind := range c03KindsCore {
+					for _, api := range c03APIs(kind, true, true) {
+						if !apiOK(cont, api) {
+							continue
+						}
+						for _, sid := range c03Bools {
+							emit(C03Case{Seq: sq, Cont: cont, Kind: kind, API: api, StoreID: sid, ZeroEOF: nullCont(cont), Roots: roots})
+							if nullCont(cont) && thorough {
+								emit(C03Case{Seq: sq, Cont: cont, Kind: kind, API: api, StoreID: sid, Roots: roots})
+							}
+						}
+					}
+				}
+			}
+		}
+	}
+
+	// ---- M4: MaxIndexCidSize at / one below the CID lengths 36 (a, a', ia) and 34 (a0), and the default
+	// limit against identity CIDs of 2048 and 2049 bytes
+	var seqsM [][]string
+	kit.Seqs([]string{"a", "a0", "ia", "t", "i"}, 2, func(s []string) { seqsM = append(seqsM, s) })
+	contsM := []string{"v1", "v2pad", "v2idx", "v1null"}
+	if thorough {
+		contsM = contsAll
+	}
+	for _, sq := range seqsM {
+		for _, cont := range contsM {
+			for _, kind := range c03KindsCore {
+				for _, api := range c03APIs(kind, true, thorough) {
+					if !apiOK(cont, api) {
+						continue
+					}
+					for _, sid := range c03Bools {
+						for _, mc := range []uint64{36, 35, 34, 33} {
+							emit(C03Case{Seq: sq, Cont: cont, Kind: kind, API: api, StoreID: sid, MaxCid: mc})
+						}
+					}
+				}
+			}
+		}
+	}
+	for _, sq := range [][]string{{"X2048"}, {"X2049"}, {"a", "X2048", "b"}, {"a", "X2049", "b"}, {"X2049", "X2048"}} {
+		for _, cont := range contsM {
+			for _, kind := range c03KindsCore {
+				for _, api := range c03APIs(kind, true, true) {
+					if !apiOK(cont, api) {
+						continue
+					}
+					for _, sid := range c03Bools {
+						for _, mc := range []uint64{0, 2048, 2049, 2047} {
+							emit(C03Case{Seq: sq, Cont: cont, Kind: kind, API: api, StoreID: sid, MaxCid: mc})
+						}
+					}
+				}
+			}
+		}
+	}
+
+	// ---- M5: a populated bucket (41 records of one width and code, one digest twice)
+	many := c03ManySeq()
+	for _, cont := range contsAll {
+		for _, kind := range c03KindsAll {
+			for _, api := range c03APIs(kind, true, true) {
+				if !apiOK(cont, api) {
+					continue
+				}
+				for _, sid := range c03Bools {
+					emit(C03Case{Seq: many, Cont: cont, Kind: kind, API: api, StoreID: sid, ZeroEOF: nullCont(cont)})
 				}
 			}
 		}
@@ -368,14 +886,30 @@ func init() {
 		Gen:    genC03,
 		Run:    runC03,
 		Decode: kit.DecodeAs[C03Case],
-		Rule: "every payload (block sequences up to the bound incl. duplicates, equal digests under different hash functions/codecs, identity, mixed widths) laid out by the reference encoder as CARv1/CARv2 (padded, with embedded index, with null padding) x index kind x API and source kind " +
-			"(GenerateIndex/LoadIndex over bytes.Reader, *os.File, plain stream, one-byte and half-buffer short-read streams, *os.File over a pipe; ReadOrGenerateIndex; NewReadOnly; OpenReadable) x StoreIdentityCIDs x ZeroLengthSectionAsEOF x MaxIndexCidSize; every alphabet CID is queried; non-trivial = >=2 records or a repeated digest",
+		Rule: "every payload (block sequences up to the bound incl. duplicates, equal digests under different hash functions/codecs, a digest that is a strict prefix of another under the same code, identity, mixed widths, CIDv0; " +
+			"one 41-section archive filling a single bucket) under a header with 0/1/2/4 roots (1- and 2-byte header length varint), laid out by the reference encoder as CARv1 / CARv2 (data padding 0, 5, 40001; with embedded index; " +
+			"with null padding after the sections, also in front of an embedded index) x index kind (multihash-sorted by default and by explicit UseIndexCodec, sorted, InsertionIndex) x entry point and source kind " +
+			"(GenerateIndex/LoadIndex over bytes.Reader, *os.File, plain stream, one-byte / half-buffer / data+EOF short-read streams, bufio.Reader (4096 and 16), *bytes.Buffer, *os.File over a pipe, ReadSeeker without ReadByte, ReadSeeker with short reads; " +
+			"GenerateIndexFromFile; ReadOrGenerateIndex over bytes.Reader, *os.File, bare ReadSeeker, short-read ReadSeeker; blockstore.NewReadOnly over ReaderAt-only, bytes.Reader, *os.File; blockstore.OpenReadOnly (mmap); " +
+			"storage.OpenReadable over ReaderAt-only, bytes.Reader, *os.File) x StoreIdentityCIDs x ZeroLengthSectionAsEOF x MaxIndexCidSize {default, 40, 36, 35, 34, 33, 2047, 2048, 2049}. " +
+			"Matrices: M0 = original full cross on the original entry points; M1 = ZeroLengthSectionAsEOF on unpadded CARv2 (sequences <= 2); M2 = added entry points/containers/explicit codec/prefix+collision blocks on sequences one step shorter than M0 " +
+			"(thorough: M0's length-3 sequences through the added entry points with default limits on v1/v2pad/v2idx/v2null); M3 = header shapes x all entry points on sequences <= 1 (quick) / 2 (thorough) over 6 blocks; M4 = size-limit boundaries; M5 = populated bucket. " +
+			"Oracle per execution: codec/type of the returned index; for every alphabet CID, extra CID, archive CID and an absent CID: GetAll = reference offsets (by multihash, or digest for the digest-only kinds), every reported offset " +
+			"is a section start carrying that key (checked on go-car's answer), ErrNotFound otherwise, GetAll stops after the callback returns false (at match 1..3), GetFirst, InsertionIndex.Get; ForEach multiset, ForEach abort on callback error, ForEachCid; " +
+			"refusals: ErrCidTooLarge with MaxSize/CurrentSize, null padding refused by a non-I/O error; non-trivial = >=2 records or a repeated digest",
 		Bound: func(tier string) map[string]any {
 			if tier == "thorough" {
-				return map[string]any{"seq_len": 3, "alphabet": 12}
+				return map[string]any{"seq_len": 3, "alphabet": 14, "alphabet_added_entry_points": "17 (len<=2), 14 (len 3, reduced options)", "collision_prefix_triples": 7, "roots": 4, "containers": 8, "entry_points": "21 (codec kinds) / 15 (insertion)", "maxcid_values": 9, "bucket_population": 41}
 			}
-			return map[string]any{"seq_len": 2, "alphabet": 8}
+			return map[string]any{"seq_len": 2, "alphabet": 8, "alphabet_added_entry_points": "11 (len<=1) + pairs over 6 interacting blocks", "collision_prefix_triples": 4, "roots": 4, "containers": 8, "entry_points": "21 (codec kinds) / 15 (insertion)", "maxcid_values": 9, "bucket_population": 41}
 		},
-		Assumptions: []string{"refcar layout is correct", "the insertion index is treated as digest-only (what GetAll implements; FindCid confirms the CID at each candidate)"},
+		Assumptions: []string{
+			"refcar layout is correct",
+			"the insertion index is treated as digest-only (what GetAll implements; FindCid confirms the CID at each candidate)",
+			"block 'ka' (a's sha2-256 digest under the blake2b-256 code) stands for a cross-function digest collision between non-identity CIDs; its data does not hash to the CID, which index generation (documented as non-verifying) never looks at; every other block is hash-verified by the reference decoder",
+			"an embedded index is taken as is by ReadOrGenerateIndex/NewReadOnly/OpenReadable (no size limit, no null-padding scan); it is written by the reference encoder with the requested codec",
+			"a seekable source is handed over positioned at 0 (a reader positioned inside a larger file is outside the statement: go-car reports absolute offsets for it)",
+			"short reads, data+EOF reads and a Seek method that fails with ESPIPE are environment behaviours allowed by the io contracts",
+		},
 	})
 }
